@@ -444,3 +444,55 @@ def payload_reads(chk, rule, prog, eff, cache):
                        key="%s:payload:%d" % (fn, e.ins.id),
                        detail="" if ok else "reads %s byte(s) at payload+%s although the decoder claimed only `length` bytes" % (fmt_term(cnt) if cnt else "?", off))
     return n
+
+
+def running_read(prog, pa, RES, read_off):
+    """The running 'bytes read so far' of cbor_load on one path, wherever it lives (in result->read or in a local that is
+    stored back at the exits).  Returns (valid, problems):
+      valid(r)  - is term r a running total: 0, the stored total, or a sum whose other summands are read counts of decoder
+                  results that were added while the result's status was known to be FINISHED;
+      problems  - [(event, text)] for additions of a decoder result under another status and for stores of something that
+                  is not a running total into result->read.
+    Needs a path produced with arith_events=True."""
+    import paths as P
+    st_read = prog.field_offset("cbor_decoder_result", "read")
+    st_status = prog.field_offset("cbor_decoder_result", "status")
+    FIN = prog.enum("cbor_decoder_status")["CBOR_DECODER_FINISHED"]
+
+    def is_dres_read(x):
+        return isinstance(x, tuple) and x[0] == "ld" and x[2] == st_read and isinstance(x[1], tuple) and x[1][0] == "alloca"
+    audited = set()
+    problems = []
+    cur_status = None
+    fi = 0
+    for e in pa.events:
+        while fi < e.nfacts:
+            t, truth, _ = pa.facts[fi]
+            if t[0] == "in" and t[1][0] == "ld" and t[1][2] == st_status and len(t[2]) == 1:
+                cur_status = t[2][0]
+            elif t[0] == "icmp" and t[1] == "eq" and isinstance(t[2], tuple) and t[2][0] == "ld" and t[2][2] == st_status and P.is_const(t[3]) and truth:
+                cur_status = t[3][1]
+            fi += 1
+        if e.kind == "call" and e.callee == "cbor_stream_decode":
+            cur_status = None
+        if e.kind == "arith" and e.callee == "add" and any(is_dres_read(x) for x in e.args):
+            new = [x for x in e.args if is_dres_read(x) and x not in audited]
+            if cur_status == FIN:
+                audited.update(new)
+            elif new:
+                problems.append((e, "a decoder result's read count is added under status %s" % cur_status))
+
+    def valid(r):
+        if r == ("c", 0):
+            return True
+        if isinstance(r, tuple) and r[0] == "ld" and r[1] == RES and r[2] == read_off:
+            return True
+        if is_dres_read(r):
+            return r in audited          # 0 + read, folded
+        if isinstance(r, tuple) and r[0] == "op" and r[1] == "add":
+            return valid(r[3]) and valid(r[4])
+        return False
+    for e in pa.events:
+        if e.kind == "store" and P.ptr_key(e.args[0]) == (RES, read_off) and not valid(e.args[1]):
+            problems.append((e, "read := %s, which is not 0 plus FINISHED read counts" % fmt_term(e.args[1])))
+    return valid, problems
